@@ -42,6 +42,7 @@ class Ctl:
     self.plain = plain  # C05: interpret lifted instructions as their plain twin
     self.trace_count = 0
     self.cur_path = ()
+    self.phase = 0  # C01 'twice' route: raised by the calling function between two calls of the same bound module
 
   yield_hook = None  # set by engines that run several simulated threads: every callback event is a scheduling point
 
@@ -209,9 +210,20 @@ def run_body(mod, sp, x, decl):
         mod.put_variable(ins['col'], ins['name'], mod.get_variable(ins['col'], ins['name']) + 1.0)
       else:
         mod.put_variable(ins['col'], ins['name'], jnp.ones((), jnp.float32))
+    elif k == 'late':
+      # a variable in a collection that only comes into being in a LATER call of the same bound module
+      if CTL.phase and mod.is_mutable_collection(ins['col']):
+        CTL.event('late-var')
+        v = mod.variable(ins['col'], ins['name'], lambda: jnp.zeros((), jnp.float32))
+        v.value = v.value + 1.0
     elif k == 'sow':
       CTL.event('sow')
-      if ins.get('how') == 'last_dict':
+      if ins.get('how') == 'last_none':
+        # keep-the-latest sow whose first recorded value is None (an optional argument that was not given)
+        last = lambda a, b: b  # noqa: E731
+        mod.sow(ins['col'], ins['name'], None, reduce_fn=last, init_fn=lambda: None)
+        mod.sow(ins['col'], ins['name'], x, reduce_fn=last, init_fn=lambda: None)
+      elif ins.get('how') == 'last_dict':
         # keep-the-latest sow of dict values (the caller keeps using the first dict afterwards)
         last = lambda a, b: b  # noqa: E731
         d1 = {'a': x + 1.0}
@@ -301,8 +313,11 @@ def gen_module(g, depth=0, budget=None, allow=('param', 'var', 'sow', 'perturb',
       body.append(dict(i='var', col=g.choice(COLS), name=fresh('v'), kind=g.choice(['counter', 'running'])))
     elif r < 0.58 and 'sow' in allow:
       body.append(dict(i='sow', col=g.choice(['intermediates', 'intermediates', 'aux']), name=fresh('s')))
-      if g.random() < 0.25:
+      hw = g.random()
+      if hw < 0.25:
         body[-1]['how'] = 'last_dict'
+      elif hw < 0.45:
+        body[-1]['how'] = 'last_none'
     elif r < 0.64 and 'perturb' in allow:
       body.append(dict(i='perturb', name=fresh('p')))
     elif r < 0.74 and 'rng' in allow:
